@@ -436,8 +436,10 @@ func (m *Muxer) Close() {
 	m.mutex.Lock()
 	m.closed = true
 	m.mutex.Unlock()
+	verifHook("close:unlocked")
 
 	m.cond.Broadcast()
+	verifHook("close:broadcast-done")
 
 	for _, stream := range m.streams {
 		stream.close()
@@ -524,6 +526,7 @@ func (m *Muxer) rotateParts(nextDTS time.Duration) error {
 	m.mutex.Lock()
 	err := m.rotatePartsInner(nextDTS)
 	m.mutex.Unlock()
+	verifHook("rotateParts:unlocked")
 
 	if err != nil {
 		return err
@@ -561,6 +564,7 @@ func (m *Muxer) rotateSegments(
 	m.mutex.Lock()
 	err := m.rotateSegmentsInner(nextDTS, nextNTP, force)
 	m.mutex.Unlock()
+	verifHook("rotateSegments:unlocked")
 
 	if err != nil {
 		return err
